@@ -2312,3 +2312,15 @@ def run_patterns(l, exc_code):
         same = False
     info.update(reread=y, eq=bool(y == o), same_canon=cy == co, rewrite_same=same)
     return out + [0, h63_list(0, cy), int(cy == co), wf], info
+
+
+def pattern_of_obj(p):
+    """psd_tools Pattern object -> description (inverse of obj_pattern)"""
+    def vma(a):
+        if a.depth is None:
+            return ["skip"] if a.is_written == 0 else ["empty", int(a.is_written)]
+        return ["full", int(a.is_written), a.depth, list(a.rectangle), a.pixel_depth, int(a.compression), bytes(a.data)]
+
+    return [p.version, int(p.image_mode), list(p.point), str_to_units(p.name), p.pattern_id.encode("ascii"),
+            None if p.color_table is None else [list(c) for c in p.color_table],
+            [p.data.version, list(p.data.rectangle), [vma(a) for a in p.data.channels]]]
